@@ -68,6 +68,10 @@ structure GeoReport where
   unpowered : List Nat := []
   poleComponents : Nat := 0
   nPoles : Nat := 0
+  /-- two poles of different electric components that are within copper reach of each other -/
+  connectable : List (Nat × Nat) := []
+  /-- unpowered entities whose centre lies inside the bounding box of all poles -/
+  unpoweredInside : List Nat := []
   longCopper : List Nat := []
   deriving Repr, Inhabited
 
@@ -113,6 +117,16 @@ def geoCheck (bp : Blueprint) (protos : Array Proto) (checkPower : Bool) : GeoRe
       | _, _ => p
     else p) par0
   let roots := (poles.map (ufFind par)).eraseDups
-  { overlaps, badWires, unpowered, poleComponents := roots.length, nPoles := poles.length }
+  let connectable := poles.flatMap (fun p => (poles.filter (fun q => p < q && ufFind par p != ufFind par q &&
+      (let r := min (pr p).copperReach (pr q).copperReach
+       dist2 (bp.ents.getD p default) (bp.ents.getD q default) ≤ r * r))).map (fun q => (p, q)))
+  let px := poles.map (fun p => (bp.ents.getD p default).x2)
+  let py := poles.map (fun p => (bp.ents.getD p default).y2)
+  let minL (l : List Int) : Int := l.foldl min (l.headD 0)
+  let maxL (l : List Int) : Int := l.foldl max (l.headD 0)
+  let unpoweredInside := unpowered.filter (fun i =>
+    let e := bp.ents.getD i default
+    !poles.isEmpty && minL px ≤ e.x2 && e.x2 ≤ maxL px && minL py ≤ e.y2 && e.y2 ≤ maxL py)
+  { overlaps, badWires, unpowered, poleComponents := roots.length, nPoles := poles.length, connectable, unpoweredInside }
 
 end Facto
